@@ -66,6 +66,8 @@ def run(chk):
             got = {"k": qr.kind_of_exception(e)}
         if got != exp:
             chk.diverge(dict(sig0, clause="result", form="plain", observed=got["k"]), dict(case, observed=got))
+        elif got["k"] == "ok" and isinstance(got["m"], float):
+            chk.diverge(dict(sig0, clause="numeric-type", form="plain"), dict(case, observed=repr(got)))
         if (qr.snapshot(x), qr.snapshot(y)) != (sx, sy):
             chk.diverge(dict(sig0, clause="operands-unchanged", form="plain"), case)
         # in-place scalar form: same result, right operand untouched
@@ -93,7 +95,20 @@ def run(chk):
                     chk.diverge(dict(sig0, clause="result", form="plain", type=T.__name__, observed=g["k"]), dict(case, observed=g))
                 elif g["k"] == "ok" and not isinstance(g["m"], float if T is float else F):
                     chk.diverge(dict(sig0, clause="numeric-type", type=T.__name__), dict(case, observed=repr(g["m"])))
-        if op in qr.INPLACE and op not in ("floordiv", "mod") and not a["num"]:
+        # integer magnitudes and integer bare numbers in an exact registry: same rational value, no float
+        ints = a["m"][1] == 1 and b["m"][1] == 1
+        if ints and op not in ("bool", "pow-1", "pow-2"):      # int ** negative int is a float in Python itself
+            xi = ureg[F].Quantity(int(a["m"][0]), qr.mkq(ureg[F], a).units)
+            yi = int(b["m"][0]) if b["num"] else ureg[F].Quantity(int(b["m"][0]), qr.mkq(ureg[F], b).units)
+            try:
+                gi = qr.project(qr.apply(op, xi, yi))
+            except Exception as e:
+                gi = {"k": qr.kind_of_exception(e)}
+            floaty = gi.get("k") == "ok" and isinstance(gi.get("m"), float)
+            if gi != exp or floaty:
+                kind = "numeric-type" if floaty else "result"
+                chk.diverge(dict(sig0, clause=kind, form="int-magnitudes", observed=gi["k"]), dict(case, observed=repr(gi)))
+        if op in qr.INPLACE and not a["num"]:
             U = ureg[float]
             xa = U.Quantity(np.array([float(F(*a["m"]))] * 3), qr.mkq(U, a, float).units)
             if b["num"]:
@@ -111,7 +126,7 @@ def run(chk):
             except Exception as e:
                 g = {"k": qr.kind_of_exception(e)}
             e2 = exp
-            if exp["k"] == "zerodiv":        # numpy divides by zero without raising
+            if exp["k"] == "zerodiv" or op in ("floordiv", "mod"):      # numpy divides by zero without raising; float // % near ties
                 e2 = None
             if e2 is not None and not qr.approx_equal(g, e2):
                 chk.diverge(dict(sig0, clause="result", form="ndarray-inplace", observed=g["k"]), dict(case, observed=g))
